@@ -128,6 +128,18 @@ def runObsOK (m : MsgRun) (pre post : Store Rec) (deltas : List (Addr × Coins))
         (ds.all fun d => coinsGet c d == coinsGet r.coins d) &&
         !sHas post (recordKey m.name m.typ a)
 
+/-- Nothing is silently dropped by a run (as observed): every record that was pending before the
+    transaction and is not pending after it was either paid — its recipient's balance grew by
+    exactly the record's coins — or is now in the failed store with its coins.
+    (`pending ∪ completed ∪ failed` keeps accounting for every output ever created.) -/
+def leaversOK (pre post postFailed : Store Rec) (deltas : List (Addr × Coins)) (ds : List Denom) : Bool :=
+  pre.all fun (k, r) =>
+    sHas post k ||
+    (deltas.any fun (a, c) => a == r.rcpt && ds.all fun d => coinsGet c d == coinsGet r.coins d) ||
+    (match sGet postFailed k with
+     | some f => ds.all fun d => coinsGet f.coins d == coinsGet r.coins d
+     | none => false)
+
 /-- keys of a store are pairwise different (a user holds at most one claim per type: the claim
     store has one entry per (user, type) key) -/
 def keysNodup {α} (st : Store α) : Bool := decide (st.map (·.1)).Nodup
